@@ -1,8 +1,8 @@
 (* Property C02, truncation layer (also used by C04/C05): property theorems only. *)
 From Coq Require Import Reals List Lra.
 From SV Require Import Base.GenPrelude Base.Mat Base.Trig Base.Kernels Doc.Groups.
-From SV Require Gen.Trig Gen.SO3 Gen.SE2.
-From SV Require Proofs.C02_Trunc.
+From SV Require Gen.Trig Gen.SO3 Gen.SE2 Gen.SE3.
+From SV Require Proofs.C02_Trunc Proofs.C02_TruncSE3.
 Import ListNotations.
 Local Open Scope R_scope.
 
@@ -53,3 +53,17 @@ Theorem C02_se2_exp_trunc : forall a0 a1 a2,
     Rabs (A_c - A_t) <= eps2 * eps2 / 120 /\ Rabs (B_c - B_t) <= eps2 * eps2 / 720.
 Proof. exact Proofs.C02_Trunc.se2_exp_trunc. Qed.
 Print Assumptions C02_se2_exp_trunc.
+
+(* SE3 exp, rotation and translation part: series path = closed-form path with the four kernels replaced by their series *)
+Theorem C02_se3_exp_trunc : forall a0 a1 a2 a3 a4 a5,
+  0 < a3*a3 + a4*a4 + a5*a5 < eps2 ->
+  let th2 := a3*a3 + a4*a4 + a5*a5 in let th := sqrt th2 in
+  Gen.SE3.se3_exp_p4 [a0; a1; a2; a3; a4; a5] = Proofs.C02_TruncSE3.se3_exp_form (1/2 - th2/48) (1 - th2/8) (T_cos2 th2) (T_sin3 th2) a0 a1 a2 a3 a4 a5 /\
+  Gen.SE3.se3_exp_p1 [a0; a1; a2; a3; a4; a5] = Proofs.C02_TruncSE3.se3_exp_form (sin (th/2) / th) (cos (th/2)) (K_cos2 th) (K_sin3 th) a0 a1 a2 a3 a4 a5 /\
+  Gen.SE3.se3_exp_c4 [a0; a1; a2; a3; a4; a5] /\
+  0 <= sin (th/2) / th - (1/2 - th2/48) <= eps2 * eps2 / 3840 /\
+  0 <= cos (th/2) - (1 - th2/8) <= eps2 * eps2 / 384 /\
+  0 <= K_cos2 th - T_cos2 th2 <= eps2 * eps2 * eps2 / 40320 /\
+  0 <= K_sin3 th - T_sin3 th2 <= eps2 * eps2 * eps2 / 362880.
+Proof. exact Proofs.C02_TruncSE3.se3_exp_trunc. Qed.
+Print Assumptions C02_se3_exp_trunc.
